@@ -5,7 +5,8 @@
 //
 // profile: "conc" (3-4 clients, 3-5 ops, every kind of request), "small" (3 clients, 3-4 ops),
 // "seq" (1 client: calibrates the sequential model), "counter"/"counter3" (increments, patches,
-// unconditional sets and gets only: lost-update hunting).
+// unconditional sets and gets only: lost-update hunting), "fresh" (4 clients whose first requests all
+// create the same absent keys: the get-or-create race).
 //
 // Every history runs on a fresh swamp in one of three configurations (persistent + write interval 0,
 // persistent + write interval > 0, in-memory); the three are cycled.  An anchor key keeps the swamp
@@ -59,6 +60,8 @@ type event struct {
 }
 
 var clock atomic.Int64
+
+const watchdog = 180 * time.Second
 
 const anchorKey = "zz"
 
@@ -303,14 +306,17 @@ type profile struct {
 	minOps, maxOps         int
 	counter                bool // only increments / patches / unconditional sets / gets: no request whose
 	// non-atomicity is a known finding, so every non-linearizable history is a violation
+	fresh bool // both keys start absent and every client's first two requests are creating writers (one per
+	// key): the get-or-create race of concurrent FIRST writers of a key, twice per history
 }
 
 var profiles = map[string]profile{
-	"conc":     {3, 4, 3, 5, false},
-	"small":    {3, 3, 3, 4, false},
-	"seq":      {1, 1, 6, 12, false},
-	"counter":  {3, 4, 3, 5, true},
-	"counter3": {3, 3, 3, 4, true},
+	"conc":     {3, 4, 3, 5, false, false},
+	"small":    {3, 3, 3, 4, false, false},
+	"seq":      {1, 1, 6, 12, false, false},
+	"counter":  {3, 4, 3, 5, true, false},
+	"counter3": {3, 3, 3, 4, true, false},
+	"fresh":    {4, 4, 3, 4, true, true},
 }
 
 func genOp(rng *rand.Rand, k string, client, idx int, pf profile) op {
@@ -380,8 +386,11 @@ func genHistory(rng *rand.Rand, h int, pf profile) history {
 	default:
 		hs.keys = []string{"k1", "k2"}
 	}
+	if pf.fresh {
+		hs.keys = []string{"k1", "k2"}
+	}
 	for i, k := range hs.keys {
-		if rng.Intn(2) == 0 {
+		if !pf.fresh && rng.Intn(2) == 0 {
 			ty := "i64"
 			if k == "k2" {
 				ty = "map"
@@ -395,6 +404,32 @@ func genHistory(rng *rand.Rand, h int, pf profile) history {
 		var ops []op
 		for i := 0; i < m; i++ {
 			k := hs.keys[rng.Intn(len(hs.keys))]
+			if pf.fresh && i < 2 {
+				// creating writer on each key, in an order that differs between clients
+				k = hs.keys[(i+c)%2]
+				uniq := int64(1000*c + 100*(i+1))
+				switch rng.Intn(3) {
+				case 0:
+					if k == "k1" {
+						ops = append(ops, op{Op: "inc", K: k, A: int64(1 + rng.Intn(3))})
+					} else {
+						ops = append(ops, op{Op: "patch", K: k, A: int64(1 + rng.Intn(3)), Cr: 1})
+					}
+				case 1:
+					if k == "k1" {
+						ops = append(ops, op{Op: "inc", K: k, A: 1})
+					} else {
+						ops = append(ops, op{Op: "patch", K: k, A: 1, Cr: 1})
+					}
+				default:
+					ty := "i64"
+					if k == "k2" {
+						ty = "map"
+					}
+					ops = append(ops, op{Op: "set", K: k, A: uniq, Ty: ty, Cr: 1, Ow: 1})
+				}
+				continue
+			}
 			ops = append(ops, genOp(rng, k, c, i, pf))
 		}
 		hs.clients = append(hs.clients, ops)
@@ -461,10 +496,14 @@ func runAll(out string, nhist int, pfName string, seed int64) error {
 		go func() { wg.Wait(); close(done) }()
 		select {
 		case <-done:
-		case <-time.After(60 * time.Second):
-			w.Emit(map[string]any{"ev": "hang", "h": h, "p": "", "nx": 0})
+		case <-time.After(watchdog):
+			// requests that never return: recorded as an observation (the check judges it), the run stops here
+			// because the blocked goroutines cannot be reclaimed
+			buf := make([]byte, 1<<20)
+			buf = buf[:runtime.Stack(buf, true)]
+			w.Emit(map[string]any{"ev": "hang", "h": h, "p": "", "nx": 0, "pending": fmt.Sprintf("mode %s, %d clients", hs.mode, len(hs.clients)), "stacks": string(buf)})
 			w.Close()
-			fmt.Fprintf(os.Stderr, "history %d: clients did not return within 60s\n", h)
+			fmt.Fprintf(os.Stderr, "history %d: clients did not return within %s\n", h, watchdog)
 			return nil
 		}
 		for _, pe := range per {
@@ -525,7 +564,7 @@ func runAll(out string, nhist int, pfName string, seed int64) error {
 func main() {
 	if len(os.Args) < 5 || os.Args[1] != "run" {
 		fmt.Fprintln(os.Stderr, "usage: lin run <out.ndjson> <nhist> <profile>")
-		os.Exit(2)
+		os.Exit(64)
 	}
 	n, _ := strconv.Atoi(os.Args[3])
 	seed, _ := strconv.ParseInt(os.Getenv("VERIF_SEED"), 10, 64)
